@@ -26,13 +26,13 @@ for t in $demos; do cp "$d/$t" tests/ 2>/dev/null || { mkdir -p tests; cp "$d/$t
 for t in $demos; do
   b=${t%.rs}
   echo "-- demo $b WITH patch (expect failure)"
-  cargo nextest run --offline --test "$b" --no-fail-fast 2>&1 | grep -E "Summary|PASS|FAIL|SIGNAL|TIMEOUT|error(\[|:)" | sort | uniq -c | head -12
+  cargo nextest run --offline ${FEATURES:+--features $FEATURES} --test "$b" --no-fail-fast 2>&1 | grep -E "Summary|PASS|FAIL|SIGNAL|TIMEOUT|error(\[|:)" | sort | uniq -c | head -12
 done
 git apply -R "$patch"
 for t in $demos; do
   b=${t%.rs}
   echo "-- demo $b WITHOUT patch (expect pass)"
-  cargo nextest run --offline --test "$b" --no-fail-fast 2>&1 | grep -E "Summary|FAIL|SIGNAL|TIMEOUT|error(\[|:)" | sort | uniq -c | head -12
+  cargo nextest run --offline ${FEATURES:+--features $FEATURES} --test "$b" --no-fail-fast 2>&1 | grep -E "Summary|FAIL|SIGNAL|TIMEOUT|error(\[|:)" | sort | uniq -c | head -12
 done
 } 2>&1 | tee "$d/run.txt"
 cd /
